@@ -36,6 +36,12 @@ class LThread(object):
   def runnable(self, sched):
     if self.done:
       return False
+    ev = getattr(self, 'wait_ev', None)
+    if ev is not None:
+      # waiting on a SchedEvent: runnable once it is set or the timeout (if any) has passed
+      if ev.flag:
+        return True
+      return self.wake is not None and self.wake <= sched.now
     if self.wake is not None and self.wake > sched.now:
       return False
     if self.blocked_on is not None and self.blocked_on.owner is not None:
@@ -80,6 +86,130 @@ class SchedLock(object):
     self.release()
 
 
+class SchedEvent(object):
+  """Same interface as threading.Event; a waiter is descheduled, its timeout runs on the virtual clock."""
+  def __init__(self, sched, flag=False):
+    self.sched = sched
+    self.flag = bool(flag)
+
+  def is_set(self):
+    return self.flag
+
+  isSet = is_set
+
+  def set(self):
+    self.flag = True
+    s = self.sched
+    if s.current is not None and not s.finished:
+      s.point('event-set')
+
+  def clear(self):
+    self.flag = False
+
+  def wait(self, timeout=None):
+    s = self.sched
+    me = s.current
+    if me is None or s.finished:
+      if not self.flag and timeout:
+        s.now += max(0.0, timeout)
+      return self.flag
+    s.steps += 1
+    if self.flag:
+      s.point('event-wait')
+      return True
+    if timeout is not None and timeout <= 0:
+      s.point('event-wait')
+      return self.flag
+    me.wait_ev = self
+    me.wake = None if timeout is None else s.now + timeout
+    try:
+      s.block(me)
+    finally:
+      me.wait_ev = None
+      me.wake = None
+    return self.flag
+
+
+class SchedRLock(SchedLock):
+  def __init__(self, sched):
+    SchedLock.__init__(self, sched)
+    self.depth = 0
+
+  def acquire(self, blocking=True, timeout=-1):
+    me = self.sched.current
+    if me is not None and self.owner is me:
+      self.depth += 1
+      return True
+    ok = SchedLock.acquire(self, blocking, timeout)
+    if ok:
+      self.depth = 1
+    return ok
+
+  def release(self):
+    self.depth -= 1
+    if self.depth <= 0:
+      self.depth = 0
+      SchedLock.release(self)
+
+  __enter__ = acquire
+
+  def __exit__(self, *a):
+    self.release()
+
+
+class FakeThreading(object):
+  """Stands in for the `threading` module inside carbon modules: the primitives that can block are the
+  scheduler's, everything else is the real module's."""
+  def __init__(self, sched):
+    self._s = sched
+
+  def Event(self):
+    return SchedEvent(self._s)
+
+  def Lock(self):
+    return SchedLock(self._s)
+
+  def RLock(self):
+    return SchedRLock(self._s)
+
+  def __getattr__(self, name):
+    return getattr(threading, name)
+
+
+_REAL_LOCK = type(threading.Lock())
+_REAL_RLOCK = type(threading.RLock())
+
+
+def install_threading_shim(sched, modules):
+  """A change to the code under test may introduce blocking primitives of its own (an Event to wake the writer,
+  another lock): inside the given modules `threading` and module-level Event/Lock objects are replaced by
+  scheduler-aware ones for the duration of a run, so that such code is scheduled (and judged) instead of blocking
+  the harness in real time.  Returns the function that undoes it."""
+  undo = []
+  fake = FakeThreading(sched)
+  for mod in modules:
+    for name, val in list(vars(mod).items()):
+      new = None
+      if val is threading:
+        new = fake
+      elif isinstance(val, threading.Event):
+        new = SchedEvent(sched, val.is_set())
+      elif type(val) is _REAL_LOCK and not val.locked():
+        new = SchedLock(sched)
+      elif type(val) is _REAL_RLOCK:
+        new = SchedRLock(sched)
+      elif name in ('Event', 'Lock', 'RLock') and val is getattr(threading, name):
+        new = getattr(fake, name)
+      if new is not None:
+        undo.append((mod, name, val))
+        setattr(mod, name, new)
+
+  def restore():
+    for mod, name, val in undo:
+      setattr(mod, name, val)
+  return restore
+
+
 class FakeTime(object):
   """Stands in for the `time` module inside carbon modules."""
   def __init__(self, sched):
@@ -117,7 +247,10 @@ class Sched(object):
     self.threads.append(t)
     return t
 
-  def make_lock(self):
+  def make_lock(self, like=None):
+    """a scheduler-aware lock; re-entrant if the lock it stands in for is"""
+    if like is not None and type(like) is _REAL_RLOCK:
+      return SchedRLock(self)
     return SchedLock(self)
 
   def tick(self):
@@ -197,7 +330,7 @@ class Sched(object):
         return None
       self.now = max(self.now, min(t.wake for t in sleepers))
       for t in sleepers:
-        if t.wake <= self.now:
+        if t.wake <= self.now and getattr(t, 'wait_ev', None) is None:
           t.wake = None
 
   def _abort_all(self, why, me=None):
@@ -252,7 +385,7 @@ class Sched(object):
         raise _Abort()
       self.now = max(self.now, min(t.wake for t in sleepers))
       for t in sleepers:
-        if t.wake <= self.now:
+        if t.wake <= self.now and getattr(t, 'wait_ev', None) is None:
           t.wake = None
 
   def sleep(self, dt):
